@@ -269,6 +269,18 @@ def _work_chunk(prop, tier, seeds, sample_every, per_run_timeout):
             return {"harness_error": "run_seed=%d: %s\n%s" % (rs, repr(e), traceback.format_exc())}
         faulthandler.cancel_dump_traceback_later()
         out.append(_summarise(prop, rs, hist, res, keep_hist=(k == 0 and sample_every)))
+        if hasattr(mod, "derived"):
+            faulthandler.dump_traceback_later(per_run_timeout * 4, exit=True)
+            try:
+                extra = mod.derived(rs, tier, hist)
+            except BaseException as e:
+                faulthandler.cancel_dump_traceback_later()
+                return {"harness_error": "derived runs of run_seed=%d: %s\n%s" % (rs, repr(e), traceback.format_exc())}
+            faulthandler.cancel_dump_traceback_later()
+            for h2, r2 in extra:
+                s2 = _summarise(prop, rs, h2, r2, keep_hist=False)
+                s2["derived"] = True
+                out.append(s2)
     return {"runs": out}
 
 
@@ -346,6 +358,7 @@ def run_batch(prop, tier, batch_seed, nruns, workers, soft_deadline_s, chunk=25,
             tasks.append(("explicit", explicit[i:i + chunk * 4]))
     b.truncated = False
     b.exhaustive_runs = 0
+    b.derived_runs = 0
     ctx = multiprocessing.get_context("fork")
     try:
         with ProcessPoolExecutor(max_workers=workers, mp_context=ctx) as ex:
@@ -383,6 +396,8 @@ def run_batch(prop, tier, batch_seed, nruns, workers, soft_deadline_s, chunk=25,
                     b.absorb(s)
                     if kind == "explicit":
                         b.exhaustive_runs += 1
+                    if s.get("derived"):
+                        b.derived_runs += 1
                 if _real_time.monotonic() - t0 > soft_deadline_s:
                     b.truncated = True
                     for f in list(futs):
